@@ -42,6 +42,7 @@ func main() {
 	mapout := flag.String("mapout", "", "")
 	ovl := flag.String("overlay", "", "existing overlay json (for virtual files)")
 	flag.BoolVar(&raceMode, "race", false, "wrap accesses to the configured shared fields in vrt.RdP/WrP")
+	flag.BoolVar(&vnetMode, "vnet", false, "redirect the kernel seams of internal/tailer/logstream (net.Listen, net.ListenPacket, fifoOpen's os.OpenFile / os.Stdin) to the simulated kernel")
 	flag.Parse()
 	var pats []string
 	for _, p := range flag.Args() {
@@ -69,6 +70,11 @@ func main() {
 				continue
 			}
 			changed := rewriteFile(p, f)
+			if vnetMode && strings.HasSuffix(p.PkgPath, "internal/tailer/logstream") {
+				if rewriteVnet(p, f, filepath.Base(name)) {
+					changed = true
+				}
+			}
 			if !changed {
 				continue
 			}
@@ -86,6 +92,13 @@ func main() {
 			m[name] = dst
 		}
 	}
+	if vnetMode {
+		for _, k := range []string{"net.Listen", "net.ListenPacket", "os.OpenFile", "os.Stdin", "*os.File"} {
+			if !vnetSeen[k] {
+				failures = append(failures, "vnet: the kernel seam "+k+" was not found in internal/tailer/logstream (the stream code changed shape; the simulated kernel must be revisited)")
+			}
+		}
+	}
 	if len(failures) > 0 {
 		for _, f := range failures {
 			fmt.Println("instrument: unsupported construct:", f)
@@ -99,7 +112,64 @@ func main() {
 	}
 }
 
-var raceMode bool
+var raceMode, vnetMode bool
+
+const vnetPath = "github.com/google/mtail/internal/zverif/vnet"
+
+var vnetSeen = map[string]bool{}
+
+// rewriteVnet redirects the four kernel seams of the logstream package to the
+// simulated kernel: net.Listen, net.ListenPacket (anywhere in the package),
+// and in fifostream.go os.OpenFile, os.Stdin and the type *os.File.
+func rewriteVnet(p *packages.Package, f *ast.File, base string) bool {
+	info := p.TypesInfo
+	changed := false
+	pkgOf := func(e ast.Expr) string {
+		id, ok := e.(*ast.Ident)
+		if !ok {
+			return ""
+		}
+		if pn, ok := info.Uses[id].(*types.PkgName); ok {
+			return pn.Imported().Path()
+		}
+		return ""
+	}
+	astutil.Apply(f, nil, func(c *astutil.Cursor) bool {
+		switch n := c.Node().(type) {
+		case *ast.StarExpr:
+			if sel, ok := n.X.(*ast.SelectorExpr); ok && base == "fifostream.go" && pkgOf(sel.X) == "os" && sel.Sel.Name == "File" {
+				c.Replace(&ast.SelectorExpr{X: ast.NewIdent("vnet"), Sel: ast.NewIdent("File")})
+				vnetSeen["*os.File"] = true
+				changed = true
+			}
+		case *ast.SelectorExpr:
+			switch pkgOf(n.X) + "." + n.Sel.Name {
+			case "net.Listen", "net.ListenPacket":
+				n.X = ast.NewIdent("vnet")
+				vnetSeen["net."+n.Sel.Name] = true
+				changed = true
+			case "os.OpenFile":
+				if base == "fifostream.go" {
+					n.X = ast.NewIdent("vnet")
+					n.Sel = ast.NewIdent("OpenFifo")
+					vnetSeen["os.OpenFile"] = true
+					changed = true
+				}
+			case "os.Stdin":
+				if base == "fifostream.go" {
+					c.Replace(&ast.CallExpr{Fun: &ast.SelectorExpr{X: ast.NewIdent("vnet"), Sel: ast.NewIdent("Stdin")}})
+					vnetSeen["os.Stdin"] = true
+					changed = true
+				}
+			}
+		}
+		return true
+	})
+	if changed {
+		astutil.AddNamedImport(p.Fset, f, "vnet", vnetPath)
+	}
+	return changed
+}
 
 // hooked lists the shared fields whose accesses are wrapped in race mode:
 // "<package path suffix>.<struct type>" -> field names.
@@ -603,11 +673,16 @@ func rewriteSelect(info *types.Info, fset *token.FileSet, s *ast.SelectStmt) ast
 				}
 				return true
 			})
+			val := c.Value
 			if hasCall {
-				failf(fset, c.Pos(), "select send case whose value contains a call (evaluation order would change)")
+				// Go evaluates the channel and the value of every send case once, in source order, on entry
+				// to the select: hoisting the value right behind its channel keeps that order
+				vTmp := tmp("v")
+				pre = append(pre, &ast.AssignStmt{Lhs: []ast.Expr{vTmp}, Tok: token.DEFINE, Rhs: []ast.Expr{c.Value}})
+				val = vTmp
 			}
 			cases = append(cases, vrtCall("CaseSend", chTmp))
-			first = &ast.SendStmt{Chan: vrtCall("AbS", chTmp), Value: c.Value}
+			first = &ast.SendStmt{Chan: vrtCall("AbS", chTmp), Value: val}
 		case *ast.ExprStmt:
 			u, ok := ast.Unparen(c.X).(*ast.UnaryExpr)
 			if !ok || u.Op != token.ARROW {
